@@ -363,17 +363,16 @@ Section AccProg.
     p <> [] -> eokb B (builtin_table B) (G0 B) p ->
     structure_ok (body_trees false p) = true ->
     scope_prog (tabs_of B (builtin_table B)) (body_trees false p) = true ->
-    Forall (fun t => ttype t <> T_ILLEGAL /\ ttype t <> T_FUNC) (toks_of_pieces (fmt_prog fx p)) ->
     List.length poss = List.length (toks_of_pieces (fmt_prog fx p)) ->
     parse B (combine (toks_of_pieces (fmt_prog fx p)) poss) eof = Accept (body_trees false p).
   Proof.
-    intros Hne He Hst Hsc Hlex Hlen.
+    intros Hne He Hst Hsc Hlen.
     unfold structure_ok in Hst. apply andb_true_iff in Hst as [Hst _].
     unfold scope_prog in Hsc. cbn [t_globals tabs_of] in Hsc. fold (G0 B) in Hsc.
     destruct (scope_stmts (tabs_of B (builtin_table B)) (body_trees false p) (G0 B)) as [Gout|] eqn:Hs; [|discriminate Hsc]. cbn [obind] in Hsc.
     destruct (close_scope Gout) as [Gn|] eqn:Hc; [|discriminate Hsc].
     destruct (close_used _ _ Hc) as [Hu _].
-    apply (program_roundtrip B BT fx p Gout poss eof Hne (poks_derive B (builtin_table B) p (G0 B) false Gout He Hst Hs) Hu Hlex Hlen).
+    apply (program_roundtrip B BT fx p Gout poss eof Hne (poks_derive B (builtin_table B) p (G0 B) false Gout He Hst Hs) Hu Hlen).
   Qed.
 
   (* ... which hold whenever some token list (the source, say) is accepted with p's tree and without
@@ -381,11 +380,10 @@ Section AccProg.
   Theorem program_roundtrip_accepted p raw eof0 poss eof :
     parse B raw eof0 = Accept (body_trees false p) -> fn_table B raw = builtin_table B ->
     p <> [] -> eokb B (builtin_table B) (G0 B) p ->
-    Forall (fun t => ttype t <> T_ILLEGAL /\ ttype t <> T_FUNC) (toks_of_pieces (fmt_prog fx p)) ->
     List.length poss = List.length (toks_of_pieces (fmt_prog fx p)) ->
     parse B (combine (toks_of_pieces (fmt_prog fx p)) poss) eof = Accept (body_trees false p).
   Proof.
-    intros Hacc Hfn Hne He Hlex Hlen.
+    intros Hacc Hfn Hne He Hlen.
     apply program_roundtrip_judged; try assumption.
     - exact (accept_structure B raw eof0 _ Hacc).
     - rewrite <- Hfn. exact (accept_scoped B raw eof0 _ Hacc).
